@@ -56,6 +56,25 @@ func (cx *Ctx) runC01() {
 		jobs[i] = &spec.Job{ID: i, Kind: "multi", Calls: []spec.Call{c}, Res: c01Resolutions(&r, c.Opts), Budgets: budgetForFam(fam, c.Opts.P4 == "ns", len(es), nodeCount(es))}
 		fams[i] = fam
 	}
+	// Brandes-Koepf on top of network-simplex layering, mid-sized connected graphs: the positioner with the most moving
+	// parts (four directional layouts, blocks, classes, compaction) meets layerings with long edges and ties. Its failures
+	// need structural coincidences that show in a few per thousand of such graphs and practically never below 7 nodes.
+	bkc := genCfg{families: []string{"connected", "random", "dag", "longedges"}, bigPct: 30}
+	for i, nBK := 0, cx.count(4000, 60000); i < nBK && !onlyHuge; i++ {
+		es, fam := genGraph(&r, bkc)
+		o := genOptions(&r, es, bkc)
+		o.P2, o.P3, o.P4, o.Thoroughness = "", "", "bk", nil
+		o.BK = nil
+		if r.chance(60) {
+			o.BK = iptr(r.intn(4))
+		}
+		if o.P5 == "splines" {
+			o.P5 = pick(&r, "", "straight", "noop")
+		}
+		c := spec.Call{Edges: es, Opts: o}
+		jobs = append(jobs, &spec.Job{ID: len(jobs), Kind: "multi", Calls: []spec.Call{c}, Res: []spec.Resolution{{Adv: "identity"}}, Budgets: budgetForFam(fam, false, len(es), nodeCount(es))})
+		fams = append(fams, fam)
+	}
 	// a few HUGE but trivially shaped inputs: stars and two-level trees whose single wide layer passes the limits of
 	// 8-, 15- and 16-bit integers (255/256, 32767/32768, 65535/65536) and a few round numbers. Trees have no crossings
 	// and one or two layers, so every phase is linear or close to it: a 32769-leaf star lays out in under a second on
